@@ -24,6 +24,22 @@ CLAIMS = {
   "¬HasWith ∧ ¬KeepVarNames; every generated name passes isReserved, which consults all keywords and all undeclared variables; only renameScope writes identifier names and never the "
   "program scope, labels, property or import/export names; hoisted names are registered in intermediate scopes; the name alphabets are valid and duplicate-free.",
   OTHER_NOTE, "DESIGN.md §4 C02"),
+ "C12": ("other",
+  "use-enumeration of the reader parameter (whole-stream hand-off), call routing, ordering/domination rules on the CFG of the pipe wrappers and the response writer",
+  "Decides why chunking cannot matter and that the wrappers deliver output and error (R12.1-R12.5, DESIGN.md §4 C12): each minifier hands its reader whole to parse.NewInput (which only uses Bytes()/io.ReadAll) and touches it nowhere else; "
+  "all convenience entry points make the one M.Minify call with the caller's media type and the response writer calls exactly what Match returns; wg.Add before go, deferred Done/pipe close, error stored, Close = close pipe, wait, read error; "
+  "Content-Length is deleted before any changed body reaches the wrapped ResponseWriter; Content-Type overrides the path-extension guess before matching; middlewares always Close. Goroutine schedules themselves are not explored.",
+  OTHER_NOTE, "DESIGN.md §4 C12"),
+ "C14": ("other",
+  "must-pass-through and domination rules on the CFG of the six Minify methods and of the pipe wrappers",
+  "Decides that success is only reported after the final probe w.Write(nil) whose error is tested and returned, and only under Err()==io.EOF (js: after js.Parse's error was returned); every other exit returns an error; "
+  "the writer/reader wrappers pass the error on (R14.1-R14.3, DESIGN.md §4 C14). That the dependency's lexers surface reader errors through Err() is trusted.",
+  OTHER_NOTE, "DESIGN.md §4 C14"),
+ "C15": ("other",
+  "abstraction of the dispatch functions to a lookup plan from their CFG and comparison with the documented plan; write-site enumeration for the registry fields",
+  "Decides the documented matching rules as the shape of MinifyMimetype/Match/Minify and of the registrars (R15.1-R15.4, DESIGN.md §4 C15): literal lookup first, then patterns in registration order, else ErrNotExist with the writer untouched; "
+  "Match has the identical plan; parameters from parse.Mediatype are forwarded; literal registration replaces, pattern registration appends. Go map/regexp/parse.Mediatype semantics are trusted.",
+  OTHER_NOTE, "DESIGN.md §4 C15"),
  "C17": ("proof",
   "constant-table evaluation from the type-checked syntax tree, compared entry by entry with reference tables",
   "Every entry of every built-in rewrite table (entities, colours, units, tag/attribute traits, MIME types, perfect-hash files) is evaluated from "
